@@ -287,7 +287,18 @@ def run_ed_block(inst):
         nontriv += 1 if (d > 0 and s and t and s[0] != t[0] and s[-1] != t[-1]) else 0
         # the function must be pure: call it in different orders for different argument pairs
         # (a result cached from a narrow band must not leak into a later, wider or unbanded call)
-        for a, b, kind in ((s, t, "str"), (sb, tb, "bytes")):
+        for a, b, kind in ((s, t, "str"), (sb, tb, "bytes"), (s, tb, "str-bytes"), (sb, t, "bytes-str")):
+            if kind in ("str-bytes", "bytes-str"):
+                # each argument may be str or bytes on its own
+                bands = [0, 1, -1] if kind == "str-bytes" else [-1, maxband, 0]
+                for band in bands:
+                    n += 1
+                    got = edit_distance(a, b, band)
+                    if (band == -1 or d <= band) and got != d:
+                        viols.append(_v("ed:exact", f"edit_distance({a!r},{b!r},{band}) = {got}, Levenshtein = {d}"))
+                    elif band != -1 and d > band and not got > band:
+                        viols.append(_v("ed:band", f"edit_distance({a!r},{b!r},{band}) = {got} but true distance {d} > band"))
+                continue
             if kind == "str":
                 bands = list(range(-1, maxband + 1)) if s <= t else list(range(0, maxband + 1)) + [-1]
             else:
